@@ -8,6 +8,10 @@ from .source import SourceIndex
 from .engine import verify_function, discharge
 
 
+def c_params(c):
+    return {n for n, _ in c.params}
+
+
 def main():
     mod = sys.argv[1]
     filt = sys.argv[2] if len(sys.argv) > 2 else ""
@@ -25,6 +29,8 @@ def main():
         cov = discharge(r.obligations, r.covers, timeout=timeout)
         for ob in r.obligations:
             print(f"   [{ob.status:7}] {ob.name}  ({ob.solver}, {ob.time:.2f}s)")
+            if getattr(ob, "model", None):
+                print("      model:", {k: v for k, v in ob.model.items() if "!" not in k or k.split("!")[0] in c_params(c)})
         for name, ans, solver, dt in cov:
             print(f"   cover {ans:5} {name}")
 
